@@ -633,6 +633,8 @@ class Runner:
         out_lines = []
         replays = []
         if new_viol:
+            # prefer a failing input that lies outside every known finding's trigger
+            new_viol.sort(key=lambda x: 0 if p.trigger(x["case"]) is None else 1)
             r = new_viol[0]
 
             def pred(cands):
